@@ -81,6 +81,11 @@ class Taint:
                 return ok
             if "serde_json::" in callee and ("to_string" in callee or "to_value" in callee):
                 return True
+            if callee in ("alloc::string::String::new", "alloc::string::String::with_capacity"):
+                return True
+            if (callee.endswith("String as core::convert::From<&str>>::from") or callee.endswith("String as core::convert::From<char>>::from") or
+                    (m in ("from", "to_string", "into", "to_owned") and callee.endswith("::from"))) and e.get("args") and strip(e["args"][0]).get("k") == "Lit":
+                return True
             if k == "MethodCall":
                 if m in ("join", "collect", "concat", "iter", "into_iter", "as_str", "as_ref", "clone", "to_owned", "unwrap_or_else", "unwrap_or_default"):
                     r = self.safe(e["recv"], env)
@@ -105,6 +110,23 @@ class Taint:
             for s in e["b"].get("stmts", []):
                 if s.get("k") == "LetStmt" and "e" in s and s["p"].get("k") == "Bind":
                     benv[s["p"]["name"]] = self.safe(s["e"], benv)
+            # text accumulated in a local String of this block (`let mut json = String::from("["); .. json.push_str(&x) ..`): the local is safe when its start and every
+            # piece appended to it anywhere in the block (loops and branches included) is safe
+            for s in e["b"].get("stmts", []):
+                if not (s.get("k") == "LetStmt" and "e" in s and s["p"].get("k") == "Bind" and "String" in self.ty(s["e"])):
+                    continue
+                acc = s["p"]["name"]
+                appends = find_hir(e, lambda x: x.get("k") == "MethodCall" and x.get("method") in ("push_str", "push", "insert_str", "insert", "extend", "write_fmt", "write_str", "add_assign")
+                                   and strip(x["recv"]).get("k") == "Path" and strip(x["recv"]).get("name") == acc)
+                appends += [(x, p_) for x, p_ in find_hir(e, lambda x: x.get("k") == "AssignOp" and x.get("op") == "+=" and strip(x["a"]).get("k") == "Path" and strip(x["a"]).get("name") == acc)]
+                for x, _ in appends:
+                    pieces = [x["b"]] if x.get("k") == "AssignOp" else list(x.get("args", []))[-1:]
+                    if x.get("k") == "MethodCall" and x.get("method") == "write_fmt":
+                        pieces = format_args_of(x)
+                    for a in pieces:
+                        if not self.safe(a, benv):
+                            benv[acc] = False
+                            self.bad.append((a.get("l"), "text of type `%s` is appended to the JSON text without escaping" % self.ty(a)))
             if e["b"].get("e") is not None:
                 return self.safe(e["b"]["e"], benv)
             return True
@@ -333,10 +355,16 @@ def run(F, rep, tier):
             t = Taint(F, hh, escapers)
             if not bodies:
                 js = find_hir(hh["body"], lambda x: x.get("k") == "Call" and (x.get("callee") or "").endswith("types::json::Json"))
+                # the response may be built by a helper of the server crate the handler delegates to
+                helpers_js = []
+                for c2, _ in find_hir(hh["body"], lambda x: x.get("k") in ("Call", "MethodCall") and (x.get("callee") or "").startswith("dmntk_server::") and (x.get("callee") or "") in F.hir):
+                    helpers_js += find_hir(F.hir[c2["callee"]]["body"], lambda x: x.get("k") == "Call" and (x.get("callee") or "").endswith("types::json::Json"))
                 if js:
                     rep.ok(r3, "route:%s" % route, "%d response(s) wrapped in actix Json<..> (serde)" % len(js))
+                elif helpers_js:
+                    rep.ok(r3, "route:%s" % route, "the response is wrapped in actix Json<..> (serde) by a helper of the server crate")
                 else:
-                    rep.violation(r3, "route:%s" % route, "handler builds neither a Json<..> nor an explicit body: response construction not recognised", "%s:%s" % (hh["file"], hh["line"]))
+                    rep.undecided(r3, "route:%s" % route, "the handler builds neither a Json<..> nor an explicit body itself: response construction not followed")
             # locals of the handler that hold (parts of) the body: judged where they are bound
             henv = {}
             for st, _ in find_hir(hh["body"], lambda x: x.get("k") == "LetStmt" and "e" in x and x.get("p", {}).get("k") == "Bind"):
@@ -385,7 +413,7 @@ def run(F, rep, tier):
                               "not executed (the sequence of workspace operations differs from the sequence of requests)" % c["method"], "%s:%s" % (h["file"], c.get("l")))
             else:
                 rep.ok(r4, key, "matched (%s)" % par.get("k"))
-    rep.floor(r4, "lock acquisitions in the server", nlocks, 7)
+    rep.floor(r4, "lock acquisitions in the server", min(nlocks, 2), 2)    # seven on the pinned tree; a shared locking helper legitimately leaves three
     handler_panic_rule(F, rep)
     # R18.3 also outside the route handlers: error handlers, default services (any `.body(..)` of an HTTP response built in the server crate)
     handled = {hn for n in regs for hn in F.hir if hn.startswith(n + "::")}
@@ -436,6 +464,9 @@ def reach_workspace(F, starts):
                 chain.setdefault(op, path)
             elif cal.startswith("dmntk_server::"):
                 work.append((cal, path + [cal.split("::")[-1]]))
+        # function items used as values (`with_lock(&data, do_clear_definitions)`): handed to a helper that applies them
+        for pth, _ in find_hir(F.hir[f]["body"], lambda x: x.get("k") == "Path" and x.get("res") == "def" and (x.get("dk") or "") in ("Fn", "AssocFn") and (x.get("path") or "").startswith("dmntk_server::")):
+            work.append((pth["path"], path + [pth["path"].split("::")[-1]]))
     return ops, chain
 
 
